@@ -421,7 +421,15 @@ def r5_rule_type_kept(ctx, prog):
 
 def run(ctx):
     prog = ctx.mir("main")
-    return [r1_tables(ctx), r2_candidates(ctx), r3_diagnostics(ctx, prog), r4_selectors(ctx), r5_rule_type_kept(ctx, prog)]
+    # the run-time category is computed with the plural rules of the locale being rendered and of the requested rule type:
+    # the cache-key / constructor clauses of C18 for get_plural_rules (decided by rules/c18.py)
+    from rules import c18
+    from rules.common import borrow
+    k1 = c18.r1_cache_key(ctx, prog)
+    r6 = borrow(k1, "C05.R6", "run-time plural rules are those of the rendered locale and rule type",
+                "`the form is the CLDR category of the count in that locale`: PluralRules cached under a coarser key (language only, or "
+                "without the rule type) serve one locale's / type's categories to another", only=r"get_plural_rules", floor=1)
+    return [r1_tables(ctx), r2_candidates(ctx), r3_diagnostics(ctx, prog), r4_selectors(ctx), r5_rule_type_kept(ctx, prog), r6]
 
 
 MANIFEST_ENTRY = {
